@@ -78,6 +78,7 @@ type ksHistOp struct {
 	OutErr       string
 	OutPath      string
 	Completed    bool
+	NoPath       bool // load: the path of the save it names was not known to the caller when the call was made
 }
 
 type ksSched struct {
@@ -182,7 +183,10 @@ func (s *ksSched) taskBody(t *ksTask) {
 			case "load":
 				p := s.paths[op.Of]
 				if p == "" {
+					// the caller does not know that file yet (the Save has not returned its path, even if the file is
+					// already visible): this is a Load of a path that does not exist and has to fail
 					p = filepath.Join(os.TempDir(), "no-such-key-file")
+					h.NoPath = true
 				}
 				k, err := s.ks.Load(p, pass)
 				h.OutKey = hex.EncodeToString(k)
@@ -539,6 +543,9 @@ func runKsScript(sc *KsScript, scratch string) *KsResult {
 			in := ksIn{Kind: h.Op.Kind, Addr: h.Op.Addr, Key: h.Op.Key, SaveIdx: h.Task*100 + h.Idx}
 			if h.Op.Kind == "load" {
 				in.SaveIdx = h.Op.Of
+				if h.NoPath {
+					in.SaveIdx = -1 // no save has this index: the model expects an error
+				}
 			}
 			o := ksOut{Key: h.OutKey, Err: h.OutErr != ""}
 			ret := h.Return
